@@ -125,7 +125,12 @@ def binding : Trace.Binding proto :=
       | _, _ => none
     retOf := fun l => match l with
       | .done r => some [r]
-      | _ => none }
+      | _ => none
+    -- declared orders of completion_event_impl.h / latch.h
+    reqOrder := fun l => match l with
+      | .ntStore _ => 3 | .wLoad _ => 2 | .wfLoad0 _ _ => 2 | .wfLoad _ => 2 | .cLoad => 2 | .rsStore => 3
+      | .cdSub _ => 4 | .twLoad => 2 | .awSub => 4
+      | _ => 0 }
 
 def init (v : Int) : State proto := initState proto L.idle (fun _ => v)
 
